@@ -6,6 +6,8 @@ use std::path::{Path, PathBuf};
 
 mod util;
 mod startup_guard;
+mod event_tasks;
+mod scheduler_tasks;
 
 fn main() {
     let args: Vec<String> = std::env::args().collect();
@@ -17,6 +19,8 @@ fn main() {
     let out = Path::new(&args[3]);
     let text = match args[1].as_str() {
         "startup_guard" => startup_guard::run(&repo),
+        "event_tasks" => event_tasks::run(&repo),
+        "scheduler_tasks" => scheduler_tasks::run(&repo),
         t => {
             eprintln!("unknown table {t}");
             std::process::exit(2);
